@@ -51,6 +51,12 @@ def tasks(tier, seed):
         for base in ("negpeak", "neg", "twopeak"):
             ts.append({"kind": "algo", "label": "dev/StroquOOL200/%s/%s" % (part, base), "cfg": cfg, "mode": "dev", "T": 20,
                        "R": list(configs.R3n), "base": base, "k": 2, "cost": 5})
+    # StoSOO with a small depth cap: the tree reaches level h_max + 1 and the deepest level is no longer the searched one
+    for hm, k in ((3, 1), (3, 2), (4, 2)):
+        for part, K, box in (("Binary", None, "u1"), ("Kary", 3, "u1")):
+            cfg = configs.cfg("StoSOO", part, K, configs.BOXES[box], n=300, k=k, h_max=hm)
+            ts.append({"kind": "algo", "label": "dev/StoSOOcap%d_%d/%s" % (hm, k, part), "cfg": cfg, "mode": "dev", "T": 90,
+                       "R": list(configs.R3), "base": "twopeak", "k": 1, "cost": 6})
     cfg = configs.cfg("StroquOOL", "Binary", None, configs.BOXES["u1"], n=1000)
     ts.append({"kind": "algo", "label": "dev/StroquOOL1000/negpeak", "cfg": cfg, "mode": "dev", "T": 120, "R": list(configs.R3n), "base": "negpeak",
                "k": 1, "cost": 10})
